@@ -127,4 +127,56 @@ theorem transform_no_option (m : FMsa) : transform {} m = some m := by
 theorem transform_namelen_only (n : Nat) (m : FMsa) : transform { namelen := some n } m = some m := by
   simp [transform, convertSyms]
 
+/-! ## unaligned output from an alignment file -/
+
+/-- line wrapping loses nothing: the 60-residue lines, concatenated, are the sequence -/
+theorem seqLines_flatten (w : Nat) (hw : 0 < w) : ∀ (fuel : Nat) (s : Bytes), s.length ≤ fuel → (seqLines w fuel s).flatten = s := by
+  intro fuel
+  induction fuel with
+  | zero => intro s h; have : s = [] := List.length_eq_zero_iff.mp (by omega); simp [seqLines, this]
+  | succ n ih =>
+    intro s h
+    unfold seqLines
+    by_cases he : s.isEmpty = true
+    · simp [he, List.isEmpty_iff.mp he]
+    · have hne : s ≠ [] := by simpa [List.isEmpty_iff] using he
+      have hpos : 0 < s.length := List.length_pos_iff.mpr hne
+      simp only [he, Bool.false_eq_true, ↓reduceIte, List.flatten_cons]
+      rw [ih (s.drop w) (by simp; omega), List.take_append_drop]
+
+/-- every line but possibly the last has exactly `w` residues, none is empty -/
+theorem seqLines_widths (w : Nat) (hw : 0 < w) : ∀ (fuel : Nat) (s : Bytes), ∀ l ∈ seqLines w fuel s, 0 < l.length ∧ l.length ≤ w := by
+  intro fuel
+  induction fuel with
+  | zero => intro s l h; simp [seqLines] at h
+  | succ n ih =>
+    intro s l h
+    unfold seqLines at h
+    by_cases he : s.isEmpty = true
+    · simp [he] at h
+    · have hne : s ≠ [] := by simpa [List.isEmpty_iff] using he
+      have hpos : 0 < s.length := List.length_pos_iff.mpr hne
+      simp only [he, Bool.false_eq_true, ↓reduceIte, List.mem_cons] at h
+      rcases h with rfl | h
+      · simp [List.length_take]; omega
+      · exact ih _ l h
+
+/-- the residue conversions act position by position -/
+theorem length_ite_map (b : Bool) (f : UInt8 → UInt8) (s : Bytes) : (if b = true then s.map f else s).length = s.length := by
+  split <;> simp
+
+theorem convertSeq_length (o : Opts) (s : Bytes) : (convertSeq o s).length = s.length := by
+  unfold convertSeq
+  simp only [length_ite_map]
+  cases o.replace <;> simp
+
+theorem convertSeq_no_option (s : Bytes) : convertSeq {} s = s := by
+  simp [convertSeq]
+
+/-- the FASTA record: header, then the lines; with the body's line feeds removed the body is the sequence -/
+theorem fastaRecordB_body (name acc desc seq : Bytes) :
+    ∃ hdr, fastaRecordB name acc desc seq = hdr ++ (seqLines 60 seq.length seq).flatMap (· ++ [10]) ∧
+      (seqLines 60 seq.length seq).flatten = seq :=
+  ⟨_, rfl, seqLines_flatten 60 (by decide) seq.length seq (Nat.le_refl _)⟩
+
 end EaselModel.Miniapps.Ali
